@@ -234,3 +234,124 @@ pub fn permute_program(rng: &mut Rng, p: &Program, conj: bool, disj: bool) -> Pr
 pub fn reorder_top(p: &Program, perm: &[usize]) -> Program {
     Program { rels: p.rels.clone(), qvars: p.qvars.clone(), body: perm.iter().map(|i| p.body[*i].clone()).collect() }
 }
+
+// ---------------------------------------------------------------------------------------------
+// CLP(FD) programs
+
+#[derive(Clone, Debug)]
+pub struct FdCfg {
+    pub max_vars: usize,
+    pub max_cons: usize,
+    /// query variable shapes: plain integers only, or also lists / compounds of FD variables
+    pub structured_query: bool,
+    pub allow_conde: bool,
+    /// exclude programs that post distinctfd (kept separate so findings can be keyed)
+    pub distinct: bool,
+}
+
+impl Default for FdCfg {
+    fn default() -> FdCfg {
+        FdCfg { max_vars: 4, max_cons: 6, structured_query: false, allow_conde: true, distinct: true }
+    }
+}
+
+/// Random well-formed FD program: every variable gets a domain somewhere in the conjunction
+/// (before or after the constraints that mention it), operands are variables or integers,
+/// arbitrary operand aliasing, hidden variables, `==` between FD variables and numbers.
+pub fn fd_program(rng: &mut Rng, cfg: &FdCfg) -> Program {
+    let nv = 1 + rng.below(cfg.max_vars);
+    let nq = 1 + rng.below(nv);
+    let lo = -(rng.below(4) as i64);
+    let hi = 1 + rng.below(4) as i64;
+    let vars: Vec<V> = (0..nv as V).collect();
+    let operand = |rng: &mut Rng| -> T {
+        if rng.chance(1, 5) {
+            T::Int(rng.range(lo, hi))
+        } else {
+            T::Var(vars[rng.below(nv)])
+        }
+    };
+    let ncons = 1 + rng.below(cfg.max_cons);
+    let mut body: Vec<G> = vec![];
+    for _ in 0..ncons {
+        let a = operand(rng);
+        let b = operand(rng);
+        let c = operand(rng);
+        let g = match rng.below(10) {
+            0 => G::Ltefd(a, b),
+            1 => G::Ltfd(a, b),
+            2 => G::Plusfd(a, b, c),
+            3 => G::Minusfd(a, b, c),
+            4 | 5 => G::Timesfd(a, b, c),
+            6 => G::Diseqfd(a, b),
+            7 => G::Eq(a, b),
+            8 if cfg.distinct => {
+                let k = 2 + rng.below(nv.max(2));
+                G::Distinctfd(T::list((0..k).map(|_| operand(rng)).collect()))
+            }
+            _ => G::Ltefd(a, b),
+        };
+        body.push(g);
+    }
+    if cfg.allow_conde && rng.chance(1, 6) {
+        // a small disjunction of bindings (several states reach the later constraints)
+        let x = T::Var(vars[rng.below(nv)]);
+        let k = 2 + rng.below(2);
+        let cs: Vec<Vec<G>> = (0..k).map(|_| vec![G::Eq(x.clone(), T::Int(rng.range(lo, hi)))]).collect();
+        let pos = rng.below(body.len() + 1);
+        body.insert(pos, G::Conde(cs));
+    }
+    // every variable gets a domain, at a random position
+    let mut grouped: Vec<V> = vec![];
+    for v in vars.iter() {
+        if rng.chance(1, 4) {
+            grouped.push(*v);
+            continue;
+        }
+        let dom: Vec<i64> = if rng.chance(1, 3) { (lo..=hi).filter(|_| !rng.chance(1, 3)).collect() } else { (lo..=hi).collect() };
+        let dom = if dom.is_empty() { vec![lo] } else { dom };
+        let contiguous = dom.windows(2).all(|w| w[1] == w[0] + 1);
+        let g = if contiguous && rng.chance(2, 3) {
+            G::InFdRange(T::Var(*v), dom[0], *dom.last().unwrap())
+        } else {
+            let mut d = dom.clone();
+            if rng.chance(1, 4) {
+                // unsorted, duplicated vectors
+                let extra = d[rng.below(d.len())];
+                d.push(extra);
+                rng.shuffle(&mut d);
+            }
+            G::InFd(T::Var(*v), d)
+        };
+        let pos = rng.below(body.len() + 1);
+        body.insert(pos, g);
+    }
+    if !grouped.is_empty() {
+        let pos = rng.below(body.len() + 1);
+        body.insert(pos, G::InFdRange(T::list(grouped.iter().map(|v| T::Var(*v)).collect()), lo, hi));
+    }
+    let hidden: Vec<V> = vars[nq..].to_vec();
+    let mut qvars: Vec<V> = vars[..nq].to_vec();
+    if cfg.structured_query && rng.chance(1, 2) {
+        // bind a new query variable to a list / compound holding the visible FD variables
+        let q = nv as V;
+        let items: Vec<T> = qvars.iter().map(|v| T::Var(*v)).collect();
+        let t = match rng.below(4) {
+            0 => T::list(items),
+            1 if items.len() == 2 => T::pair(items[0].clone(), items[1].clone()),
+            2 => T::list(vec![T::Comp("Some", vec![T::list(items)])]),
+            _ => T::improper(vec![T::Int(0)], T::list(items)),
+        };
+        let mut all_hidden = qvars.clone();
+        all_hidden.extend(hidden.iter().copied());
+        let pos = rng.below(body.len() + 1);
+        body.insert(pos, G::Eq(T::Var(q), t));
+        qvars = vec![q];
+        return Program::new(qvars, vec![G::Fresh(all_hidden, body)]);
+    }
+    if hidden.is_empty() {
+        Program::new(qvars, body)
+    } else {
+        Program::new(qvars, vec![G::Fresh(hidden, body)])
+    }
+}
